@@ -1,6 +1,7 @@
 package c19
 
 import (
+	"reflect"
 	"errors"
 	"fmt"
 	"io"
@@ -121,6 +122,21 @@ const readMaxLen = 1 << 16
 
 func shapeID(s, i int) types.Specifier { return types.NewSpecifier(fmt.Sprintf("C19s%di%d", s, i)) }
 
+// receivers: one side of a session reads every message of one type into the SAME variable, as a protocol loop does
+// (the first message of each type still meets a fresh value). Decoders that reuse the receiver's buffers must not let
+// the previous message show through.
+type receivers map[reflect.Type]protoObj
+
+func (r receivers) get(fresh func() protoObj) protoObj {
+	o := fresh()
+	t := reflect.TypeOf(o)
+	if old, ok := r[t]; ok {
+		return old
+	}
+	r[t] = o
+	return o
+}
+
 // ---- rhp/v2 ---------------------------------------------------------------------------
 
 // rhp2Obj returns the object of shape s sent as message i, and a fresh
@@ -142,7 +158,7 @@ func (te *transportEnv) rhp2Obj(tc tCase, s, i int, dir string) (protoObj, func(
 	}
 	switch s {
 	case shTiny:
-		return &rhp2.RPCSettingsResponse{Settings: g.bytes(3)}, func() protoObj { return new(rhp2.RPCSettingsResponse) }
+		return &rhp2.RPCSettingsResponse{Settings: g.bytes(3 + 2*(2-i%3))}, func() protoObj { return new(rhp2.RPCSettingsResponse) }
 	case shPadded:
 		return &rhp2.RPCSettingsResponse{Settings: g.bytes(4096 - overhead - 8)}, func() protoObj { return new(rhp2.RPCSettingsResponse) }
 	case shJustOver:
@@ -153,9 +169,9 @@ func (te *transportEnv) rhp2Obj(tc tCase, s, i int, dir string) (protoObj, func(
 			// (C10 finding), which on the RawResponse path is reachable by a bit flip
 			// and can take the whole process down. That path is probed separately
 			// and safely by the "rawread" cases.
-			return &rhp2.RPCSectorRootsResponse{Signature: g.sig(), SectorRoots: g.hashes(170), MerkleProof: g.hashes(10)}, func() protoObj { return new(rhp2.RPCSectorRootsResponse) }
+			return &rhp2.RPCSectorRootsResponse{Signature: g.sig(), SectorRoots: g.hashes(170 - 30*(i%3)), MerkleProof: g.hashes(10 - 2*(i%3))}, func() protoObj { return new(rhp2.RPCSectorRootsResponse) }
 		}
-		return &rhp2.RPCReadResponse{Signature: g.sig(), Data: g.bytes(5500), MerkleProof: g.hashes(10)}, func() protoObj { return new(rhp2.RPCReadResponse) }
+		return &rhp2.RPCReadResponse{Signature: g.sig(), Data: g.bytes(5500 - 900*(i%3)), MerkleProof: g.hashes(10 - 2*(i%3))}, func() protoObj { return new(rhp2.RPCReadResponse) }
 	case shReadResp:
 		return &rhp2.RPCReadResponse{Signature: g.sig(), Data: g.bytes(5000), MerkleProof: g.hashes(4)}, func() protoObj { return new(rhp2.RPCReadResponse) }
 	case shError:
@@ -215,11 +231,12 @@ func (te *transportEnv) runRHP2(tc tCase) *sessResult {
 		}
 		a.CloseWrite()
 		frame := 2 // 0: key exchange, 1: challenge
+		recv := receivers{}
 		read := func(i, s int) {
 			want, fresh := te.rhp2Obj(tc, s, i, "response")
 			rr := readRes{Frame: frame, Msg: i}
 			frame++
-			got := fresh()
+			got := recv.get(fresh)
 			var err error
 			if tc.Mode == "raw" {
 				err = rawRead(rt, got, maxLen)
@@ -260,6 +277,7 @@ func (te *transportEnv) runRHP2(tc tCase) *sessResult {
 		}
 		sr.HasTransport = true
 		frame := 1
+		hostRecv := receivers{}
 		readMsg := func(i, s int) {
 			rr := readRes{Frame: frame, Msg: i}
 			frame++
@@ -276,7 +294,7 @@ func (te *transportEnv) runRHP2(tc tCase) *sessResult {
 			want, fresh := te.rhp2Obj(tc, s, i, "request")
 			rr = readRes{Frame: frame, Msg: i}
 			frame++
-			got := fresh()
+			got := hostRecv.get(fresh)
 			err = ht.ReadRequest(got, maxLen)
 			rr.OK = err == nil
 			rr.Equal = err == nil && equalObj(want, got)
@@ -390,10 +408,17 @@ func (te *transportEnv) runRHP3(tc tCase) *sessResult {
 			res.side[side].Panic = fmt.Sprintf("%v", r)
 		}
 	}
+	recv3 := map[*sideRes]receivers{}
+	var recv3mu sync.Mutex
 	readInto := func(sr *sideRes, i, s int, dir string, rd func(protoObj) error) {
 		want, fresh := te.rhp3Obj(tc, s, i, dir)
 		rr := readRes{Msg: i}
-		got := fresh()
+		recv3mu.Lock()
+		if recv3[sr] == nil {
+			recv3[sr] = receivers{}
+		}
+		got := recv3[sr].get(fresh)
+		recv3mu.Unlock()
 		err := rd(got)
 		if s == shError && !(dir == "request" && i == 0) {
 			var re *rhp3.RPCError
